@@ -21,8 +21,8 @@ EXTENDS Num
 
 CONSTANT DEV_MddAbsoluteDecline   \* defect #19: largest ABSOLUTE decline is located, its relative size reported
 
-K    == 24                         \* significant digits (at least K - 8) of the certified enclosures
-PMax == 10000                      \* largest exponent numerator for which G^p is evaluated exactly
+K    == 18                         \* significant digits (K or K-1; at most K decimals) of the certified enclosures
+PMax == 1000                       \* largest exponent numerator for which G^p is evaluated exactly
 MinPerYear == 525600               \* 365 * 1440
 
 -----------------------------------------------------------------------------
@@ -86,16 +86,19 @@ NBisect(a, q, lo, hi) ==
   IF NAdd(lo, NOne) = hi THEN lo
   ELSE LET mid == NDiv(NAdd(lo, hi), <<2>>) IN
        IF NCmp(NPow(mid, q), a) <= 0 THEN NBisect(a, q, mid, hi) ELSE NBisect(a, q, lo, mid)
-NRootFloor(a, q) == IF q = 1 \/ a = <<>> THEN a ELSE NBisect(a, q, <<>>, NTen(4 * ((Len(a) + q - 1) \div q)))
+NRootFloor(a, q, hi) == IF q = 1 \/ a = <<>> THEN a ELSE NBisect(a, q, <<>>, hi)      \* hi^q > a
 
-(* Enclosure of x^(1/q) for a rational x >= 0 with about K significant digits (at most K decimals):
-   [lo, ulp] with lo <= x^(1/q) < lo + ulp, ulp = 10^-s, s = K - 4 * ceil(limbs(floor(x)) / q).          *)
+(* Enclosure of x^(1/q) for a rational x >= 0 with K or K-1 significant digits (at most K decimals):
+   [lo, ulp] with lo <= x^(1/q) < lo + ulp, ulp = 10^-s, s = K - ceil(decimal digits of floor(x) / q),
+   so that 10^s * x^(1/q) < 10^K.                                                                      *)
 Pow10(s) == IF s >= 0 THEN <<1, NTen(s), <<1>>>> ELSE <<1, <<1>>, NTen(-s)>>
+NDigits(a) == IF a = <<>> THEN 0
+              ELSE LET t == a[Len(a)] IN 4 * (Len(a) - 1) + (IF t < 10 THEN 1 ELSE IF t < 100 THEN 2 ELSE IF t < 1000 THEN 3 ELSE 4)
 QRoot(x, q) ==
-  LET d == Len(QFloor(x)[2])
-      s == K - 4 * ((d + q - 1) \div q)
+  LET d == NDigits(QFloor(x)[2])
+      s == K - ((d + q - 1) \div q)
       a == QFloor(QMul(x, Pow10(s * q)))[2]
-  IN  [lo |-> QMul(QN(NRootFloor(a, q)), Pow10(-s)), ulp |-> Pow10(-s)]
+  IN  [lo |-> QMul(QN(NRootFloor(a, q, NTen(K))), Pow10(-s)), ulp |-> Pow10(-s)]
 
 (* the relation an enclosure must satisfy *)
 Rel_Root(r, x, q) == /\ r.lo[1] >= 0
@@ -108,7 +111,7 @@ AnnCompound(G, n, im) ==
   LET e == AnnExp(n, im) IN
   IF e.p > PMax THEN [st |-> "big_exponent", lo |-> Zero, ulp |-> Zero, p |-> e.p, q |-> e.q]
   ELSE LET T == QPow(G, e.p) IN
-       IF 4 * Len(QFloor(T)[2]) > 300 * e.q                                   \* growth factor may exceed 1e300: beyond IEEE doubles
+       IF NDigits(QFloor(T)[2]) > 300 * e.q                                    \* growth factor may exceed 1e300: beyond IEEE doubles
        THEN [st |-> "overflow", lo |-> Zero, ulp |-> Zero, p |-> e.p, q |-> e.q]
        ELSE LET r == QRoot(T, e.q) IN [st |-> "ok", lo |-> QSub(r.lo, One), ulp |-> r.ulp, p |-> e.p, q |-> e.q]
 Rel_Ann(a, G) == a.st = "ok" => Rel_Root([lo |-> QAdd(a.lo, One), ulp |-> a.ulp], QPow(G, a.p), a.q)
@@ -147,6 +150,8 @@ View(v, im, b, rfs, cs) ==
       bdef == hasB /\ hasV /\ varB # Zero
       beta == IF bdef THEN QDiv(SampleCov(rp, rb), varB) ELSE Zero
   IN [n       |-> n,
+      v       |-> v,
+      b       |-> b,
       im      |-> im,
       days    |-> DurationDays(n, im),
       ivdays  |-> IntervalDays(im),
@@ -163,11 +168,12 @@ View(v, im, b, rfs, cs) ==
       vol2    |-> v2,
       vol     |-> vol,
       volUlp  |-> volr.ulp,
-      volAbs  |-> IF hasV THEN QMul(QOf(1, 1000000) , QMul(QOf(1, 1000000), QMul(QRoot(AnnFactor(im), 2).lo, QMax(One, MaxAbs(rp))))) ELSE Zero,
+      volAbs2 |-> IF hasV THEN LET m == QMul(QOf(1, 1000000), QMul(QOf(1, 1000000), QMax(One, MaxAbs(rp))))     \* (1e-12 * max(1, |returns|))^2 * 365/interval:
+                               IN  QMul(QMul(m, m), AnnFactor(im)) ELSE Zero,                                  \* double-rounding floor for a vanishing variance
       sharpe  |-> [i \in DOMAIN rfs |->
                     IF hasV /\ v2 # Zero /\ ann.st = "ok"
-                    THEN [def |-> TRUE, rf |-> rfs[i], val |-> QDiv(QSub(ann.lo, rfs[i]), vol),
-                          scale |-> QDiv(QMax(QAbs(ann.lo), rfs[i]), vol)]
+                    THEN [def |-> TRUE, rf |-> rfs[i], val |-> QRound(QDiv(QSub(ann.lo, rfs[i]), vol), 30, "HALF_EVEN"),
+                          scale |-> QRound(QDiv(QMax(QAbs(ann.lo), rfs[i]), vol), 30, "HALF_EVEN")]
                     ELSE [def |-> FALSE, rf |-> rfs[i], val |-> Zero, scale |-> Zero]],
       hasB    |-> hasB,
       bTotal  |-> IF hasB THEN TotalReturn(b) ELSE Zero,
@@ -176,7 +182,7 @@ View(v, im, b, rfs, cs) ==
       beta    |-> beta,
       alphaDef |-> bdef /\ ann.st = "ok" /\ annB.st = "ok",
       alpha   |-> IF bdef /\ ann.st = "ok" /\ annB.st = "ok" THEN QSub(ann.lo, QMul(beta, annB.lo)) ELSE Zero,
-      alphaScale |-> IF bdef /\ ann.st = "ok" /\ annB.st = "ok" THEN QMax(QAbs(ann.lo), QAbs(QMul(beta, annB.lo))) ELSE Zero]
+      betaScale2 |-> IF bdef THEN QDiv(SampleVar(rp), varB) ELSE Zero]     \* beta^2 <= Var(rp)/Var(rb): the natural scale of beta (conditioning)
 
 -----------------------------------------------------------------------------
 (* Property C20, spec side: clauses over a series and its view *)
